@@ -253,13 +253,17 @@ func builders() map[string][]variant {
 	imm("ChangePassword", b(func(c *cell) []proto.Message {
 		return one(&schema.ChangePasswordRequest{User: []byte(c.w.victimA), OldPassword: []byte(userPw), NewPassword: []byte(fmt.Sprintf("Newpass!%d", c.n))})
 	}))
-	imm("ChangePermission", b(func(c *cell) []proto.Message {
+	imm("ChangePermission", variant{prepare: func(c *cell) {
+		// the victim holds an SQL privilege on the OTHER database, so that a side effect there is observable
+		c.w.adminCall(dbDef, "ChangeSQLPrivileges", &schema.ChangeSQLPrivilegesRequest{Action: schema.PermissionAction_GRANT, Username: c.w.victim,
+			Database: dbOther, Privileges: []string{"SELECT"}}, &schema.ChangeSQLPrivilegesResponse{})
+	}, build: func(c *cell) []proto.Message {
 		p := uint32(1 + c.n%2)
 		if c.targetDB == dbSys {
 			p = 1
 		}
 		return one(&schema.ChangePermissionRequest{Action: schema.PermissionAction_GRANT, Username: c.w.victim, Database: c.targetDB, Permission: p})
-	}))
+	}})
 	imm("ChangeSQLPrivileges", b(func(c *cell) []proto.Message {
 		a := schema.PermissionAction_GRANT
 		if c.n%2 == 0 {
